@@ -43,3 +43,8 @@ claim("C02",
  "Trusted: as C01. Known findings (no surrogate pairing in five front-ends) are listed in KNOWN_FINDINGS.txt. Found by probing, outside static reach and pinned by the test suite: the parsers' fast path returns 9223372036854775807 as json.Number/Big.",
  "static analysis: guard-dominance bound analysis on multiply-accumulate sites, constant-table comparison against RFC 8259 section 7, per-digit abstract interpretation of the \\u arm, product event synchrony",
  "DESIGN.md §4 C02")
+claim("C12",
+ "Static decision of the exact truth table of the filter operators ==, !=, <, <=, >, >=, &&, ||, !, has, exists: each operator arm is evaluated abstractly over kind(left) x kind(right) x order (1000+ cells, exhaustive, with Go's interface-equality rule including the PANIC outcome for uncomparable operands) and compared with the documented semantics; plus operator-table consistency and the mixed-radix enumeration of multi-valued operands. Multi-value expansion semantics, Match vs filter membership, regex and arithmetic are not decided.",
+ "Trusted: the specification matrix in rules_c12.go written from the property statement; float64(int) assumed order preserving; operands outside the nine kinds are not modelled.",
+ "static analysis: finite abstract evaluation of operator arms over an operand-kind matrix",
+ "DESIGN.md §4 C12")
